@@ -7,6 +7,7 @@ import (
 	"strconv"
 	"strings"
 	"sync"
+	"sync/atomic"
 	"time"
 
 	"github.com/cuteLittleDevil/go-jt808/service"
@@ -140,6 +141,8 @@ func runConv(writes [][]byte, expect []int) (res convResult) {
 
 // runConvOpt with race=true sends all writes back to back (no waiting in between) while the write callback
 // is slow, so that the reader goroutine runs ahead of the writer; replies are collected at the end.
+var convStarved atomic.Int32
+
 func runConvOpt(writes [][]byte, expect []int, race bool) (res convResult) {
 	convStart()
 	convMu.Lock()
@@ -194,7 +197,13 @@ func runConvOpt(writes [][]byte, expect []int, race bool) (res convResult) {
 			time.Sleep(50 * time.Microsecond) // separate reads, but do not wait for the answers
 			continue
 		}
-		deadline := time.Now().Add(5 * time.Second)
+		// a reply that does not come is waited for 5 s; once that has happened in a few conversations of this run (the
+		// server demonstrably drops replies, every further case would cost the full wait) the wait shrinks
+		wait := 5 * time.Second
+		if convStarved.Load() >= 3 {
+			wait = 400 * time.Millisecond
+		}
+		deadline := time.Now().Add(wait)
 		quiet := 15 * time.Millisecond // also linger a little for replies that should NOT come
 		for {
 			if len(res.replies) >= total {
@@ -210,6 +219,9 @@ func runConvOpt(writes [][]byte, expect []int, race bool) (res convResult) {
 			}
 			if err != nil {
 				if ne, ok := err.(net.Error); ok && ne.Timeout() {
+					if len(res.replies) < total {
+						convStarved.Add(1)
+					}
 					break
 				}
 				res.closed = true
@@ -756,7 +768,11 @@ func genC06(r *fw.Rng, tier string, emit func(fw.Case)) {
 					}
 					continue
 				}
-				data = append(data, c06Frame(r, phone, v2019).bytes...)
+				f := c06Frame(r, phone, v2019).bytes
+				data = append(data, f...)
+				if r.Chance(8) { // a retransmission: the same frame again, byte for byte, in the same write (each gets its reply)
+					data = append(data, f...)
+				}
 			}
 			if len(data) > 1023 {
 				data = c06Frame(r, phone, v2019).bytes
